@@ -25,6 +25,8 @@ MUT = [
     ('set_map_keeps_equal_end', 'C01', True, [(EC, 'emap.extend(x for x in vault_map[odf_idx:] if x > new_end)', 'emap.extend(x for x in vault_map[odf_idx:] if x >= new_end)')]),
     ('overlap_off_by_one_two_sites', 'C01', True, [(EC, '            if is_repeated > deleting:\n', '            if is_repeated >= deleting:\n')]),
     ('negative_y_from_width', 'C01', True, [(TB, '        if y and y < 0:\n            y = increment(y, self.height)\n        return (x, y)', '        if y and y < 0:\n            y = increment(y, self.width)\n        return (x, y)')]),
+    ('traverse_end_exclusive', 'C01', True, [(RW, '                for _i in range(repeated or 1):\n                    if x <= end:\n                        if cell is None:', '                for _i in range(repeated or 1):\n                    if x < end:\n                        if cell is None:')]),
+    ('row_values_pad_short', 'C01', True, [(TB, '                values.extend([None] * (self.width - len(values)))\n        return values\n\n    def get_row_sub_elements', '                values.extend([None] * (self.width - len(values) - 1))\n        return values\n\n    def get_row_sub_elements')]),
     ('cell_set_repeated_lt1', 'C07', True, [(CE, '        if repeated is None or repeated < 2:\n            with contextlib.suppress(KeyError):\n                self.del_attribute("table:number-columns-repeated")',
                                             '        if repeated is None or repeated < 1:\n            with contextlib.suppress(KeyError):\n                self.del_attribute("table:number-columns-repeated")')]),
     ('update_width_noop', 'C07', True, [(TB, '        diff = row.width - self.width\n        if diff > 0:\n            self.append_column(Column(repeated=diff))',
